@@ -260,6 +260,50 @@ pub fn run_c07(ctx: &mut Ctx, from: u64, to: u64) {
             }
             continue;
         }
+        if k == 1 {
+            // a large model (several MB on disk, > 16 MiB of decoded containers): round trip only
+            let mut big = ModelData { bias: 3, char_window_size: 1, type_window_size: 1, ..ModelData::default() };
+            let cjk = |i: usize| char::from_u32(0x4E00 + (i % 20000) as u32).unwrap();
+            for i in 0..270_000usize {
+                let w: String = [cjk(i / 700), cjk(7000 + i % 700), cjk(9000 + (i * 7) % 911)].iter().collect();
+                big.dict_model.push(mirror::WordWeightRecord { word: w, weights: vec![1, -2, 3, (i % 5) as i32], comment: String::new() });
+            }
+            for i in 0..380_000usize {
+                let g: String = [cjk(i / 650), cjk(12000 + i % 650)].iter().collect();
+                big.char_ngram_model.push(mirror::NgramData { ngram: g, weights: vec![(i % 7) as i32 - 3] });
+            }
+            let bytes = big.to_bytes();
+            ctx.count("large_model_bytes", bytes.len() as u64);
+            let r = guard(|| -> Result<(), (String, J)> {
+                let (m, rest) = Model::read_slice(&bytes).map_err(|e| ("C07:large_model_rejected_by_read_slice".to_string(), J::s(format!("{e}"))))?;
+                if !rest.is_empty() {
+                    return Err(("C07:read_slice_rest_not_empty".into(), J::i(rest.len())));
+                }
+                if m.to_vec().ok().as_deref() != Some(&bytes[..]) {
+                    return Err(("C07:large_model_reserialises_differently".into(), J::Null));
+                }
+                let m2 = Model::read(io::Cursor::new(&bytes)).map_err(|e| ("C07:large_model_rejected_by_read".to_string(), J::s(format!("{e}"))))?;
+                let mut w = vec![];
+                m2.write(&mut w).map_err(|e| ("C07:write_failed".to_string(), J::s(format!("{e}"))))?;
+                if w != bytes {
+                    return Err(("C07:large_model_reserialises_differently".into(), J::Null));
+                }
+                if Model::read_slice(&bytes[..bytes.len() - 1]).is_ok() || Model::read_slice(&bytes[..bytes.len() / 2]).is_ok() {
+                    return Err(("C07:proper_prefix_accepted".into(), J::s("large model")));
+                }
+                Ok(())
+            });
+            ctx.eval(4);
+            match r {
+                Ok(Ok(())) => {
+                    ctx.count("large_model_round_trips", 1);
+                    ctx.nontrivial(fnv(&bytes[..4096]));
+                }
+                Ok(Err((sig, what))) => ctx.violation(&sig, J::obj(vec![("what", what), ("model", J::s(big.summary())), ("bytes", J::i(bytes.len()))])),
+                Err(p) => ctx.violation(&format!("C07:round_trip_panicked:{}", panic_site(&p)), J::obj(vec![("panic", J::s(&p)), ("model", J::s(big.summary()))])),
+            }
+            continue;
+        }
         let mut o = GenOpts::default();
         let full = k % 4 != 0;
         if full {
@@ -291,7 +335,8 @@ fn gen_dict(rng: &mut Rng, case: &Case) -> Vec<mirror::WordWeightRecord> {
     let n = rng.below(7);
     for _ in 0..n {
         let t = rng.pick(&case.texts);
-        let len = rng.urange(1, t.len().min(6));
+        let cap = if rng.chance(1, 3) { 14 } else { 6 };
+        let len = rng.urange(1, t.len().min(cap));
         let s = rng.below(t.len() - len + 1);
         let w: String = t[s..s + len].iter().collect();
         if !words.contains(&w) {
@@ -305,13 +350,20 @@ fn gen_dict(rng: &mut Rng, case: &Case) -> Vec<mirror::WordWeightRecord> {
         }
     }
     let class = *rng.pick(&[WClass::Tiny, WClass::Full]);
-    words
+    let mut recs: Vec<mirror::WordWeightRecord> = words
         .into_iter()
         .map(|w| {
             let l = w.chars().count() + 1;
             mirror::WordWeightRecord { word: w, weights: gen_weights(rng, l, class), comment: if rng.chance(1, 3) { "new, \"entry\"".into() } else { String::new() } }
         })
-        .collect()
+        .collect();
+    // a record repeated verbatim right after itself (both count)
+    if !recs.is_empty() && rng.chance(1, 10) {
+        let i = rng.below(recs.len());
+        let dup = recs[i].clone();
+        recs.insert(i + 1, dup);
+    }
+    recs
 }
 
 pub fn run_c19lib(ctx: &mut Ctx, from: u64, to: u64) {
@@ -399,6 +451,8 @@ pub fn run_c19lib(ctx: &mut Ctx, from: u64, to: u64) {
                 ctx.count("boundaries_touched_by_old_dictionary", a);
                 ctx.count("boundaries_touched_by_new_dictionary", b);
                 ctx.flag("edits_to_empty_dictionary", newd.is_empty());
+                ctx.flag("new_dictionaries_with_word_of_8_or_more_chars", newd.iter().any(|d| d.word.chars().count() >= 8));
+                ctx.flag("new_dictionaries_with_repeated_record", newd.windows(2).any(|w| w[0] == w[1]));
                 ctx.flag("edits_from_empty_dictionary", case.model.dict_model.is_empty());
                 if a + b > 0 {
                     ctx.nontrivial(crate::p_score::case_digest(&case) ^ fnv(format!("{:?}", newd).as_bytes()));
